@@ -40,10 +40,12 @@ FMT = ("f", 6)
 
 
 @st.composite
-def _case(draw, kind, n_min=1, n_max=4):
+def _case(draw, kind, n_min=1, n_max=4, near_copies=False):
     route = draw(st.sampled_from(["function", "class", "potable", "main"]))
-    m = draw(gen.eam_model(kind, n_min, n_max, depth=1, pycallables=(route not in ("potable", "main"))))
+    m = draw(gen.eam_model(kind, n_min, n_max, depth=1, pycallables=(route not in ("potable", "main")), near_copies=near_copies))
     m["route"] = route
+    if near_copies:
+        m["near_copies"] = True
     return m
 
 
@@ -70,7 +72,8 @@ def strategy(tier):
 
 def strata(tier):
     return [("eam:1-2", _case("eam", 1, 2), 2), ("eam:3-4", _case("eam", 3, 4), 3),
-            ("fs:1-2", _case("fs", 1, 2), 2), ("fs:3-4", _case("fs", 3, 4), 3), ("rewrite", _rewrite(), 2), ("break_on_row", _node_case(), 1)]
+            ("fs:1-2", _case("fs", 1, 2), 2), ("fs:3-4", _case("fs", 3, 4), 3), ("rewrite", _rewrite(), 2), ("break_on_row", _node_case(), 1),
+            ("near_copies", st.one_of(_case("eam", 2, 3, True), _case("fs", 2, 3, True)), 3)]
 
 
 def budget(tier):
@@ -200,7 +203,7 @@ def check_case(m):
     fs = "density_fs" in m
     route = m["route"]
     nr, dr, nrho, drho = eamtab.grids(m)
-    cls = ["kind:" + ("fs" if fs else "eam"), "route:" + route] + (["break_on_row"] if m.get("node_breaks") else [])
+    cls = ["kind:" + ("fs" if fs else "eam"), "route:" + route] + (["break_on_row"] if m.get("node_breaks") else []) + (["near_copies"] if m.get("near_copies") else [])
     if m.get("int_returns") and not str(route).startswith(("potable", "main", "cli")):
         cls.append("callables_return_ints")
     if nr % 4 or nrho % 4:
